@@ -1,11 +1,13 @@
 """C12: check configuration (PROPS_ENTRY, consumed by ./check and gen_manifest.py) and the list of lemmas that make up
 the property file (SPEC_ENTRY, consumed by tools/mkprops.py)."""
 PROPS_ENTRY = {'models': ['Model/PciBus.v'],
- 'design_ref': 'DESIGN.md 3 C12, 4 F5a/F5b',
+ 'design_ref': 'DESIGN.md 3 C12, 4 F5a/F5b; F11 (size = lowest writable address bit)',
  'assumptions': ['the PCI function behind ConfigurationAccess behaves like the reference function of Model/PciBus.v: 16 read/write command bits, RW1C status, '
                  'BAR registers = (hard-wired mask, content) with standard write semantics, other registers plain storage',
-                 'well-formed BAR = all bits below log2(size) hard-wired (type bits as encoded, address bits zero), all address bits above writable; I/O BARs '
-                 'whose upper 16 address bits are hard-wired zero are outside this definition',
+                 'well-formed BAR = the writable address bits are a contiguous run [k, m): bits below k hard-wired (type bits as encoded, address bits zero), '
+                 'bits >= m hard-wired zero; I/O 2 <= k < m <= 32 (m = 16: 16-bit I/O decoder, PCI 3.0 6.2.5.1), memory 32-bit / below 1 MiB 4 <= k < m <= 32, '
+                 'memory 64-bit 4 <= k < m <= 64 over both registers; size = 2^k, address < 2^m. Outside: masks whose writable address bits are not contiguous '
+                 '(holes), for which "the lowest writable address bit" is still what the repaired code returns but no theorem is stated',
                  'well-formed capability list = offsets in [64,256), 4-aligned, acyclic, ended by a pointer that is 0 / < 64 / misaligned; a cyclic list makes '
                  'the real iterator loop forever (model: out of fuel) and is never given to the real code',
                  'bus and register_offset are u8 by type; device/function validity and alignment are the assertions of cam_offset'],
@@ -17,11 +19,13 @@ SPEC_ENTRY = {'title': 'PCI bus helpers size BARs without side effects and addre
  'theorems': [('C12_bar_info',
                'Proofs/PciBusProofs.v',
                'bar_info_correct',
-               'repaired code, full statement: for EVERY well-formed BAR (I/O, memory 32-bit / below 1 MiB / 64-bit over two registers, prefetchable or not, '
-               'size 2^k with exactly the address bits >= k writable, any size-aligned address, any slot where it fits, unimplemented = all bits hard-wired '
-               'zero; the other five registers arbitrary) and EVERY command value c < 2^16: the result is (kind, address, prefetchable, 2^k) (None for '
-               'unimplemented), the function (command, status, all six BARs, every other register) is exactly as before, every all-ones BAR write is issued '
-               'with both decode bits clear, and replaying the trace no BAR differs from its original content while decoding is enabled'),
+               'code as it is now (F5a, F5b, F11 repaired), full statement: for EVERY well-formed BAR (I/O, memory 32-bit / below 1 MiB / 64-bit over two '
+               'registers, prefetchable or not, writable address bits any contiguous run [k, m) with everything below k and from m up hard-wired - full '
+               'decoders m = 32/64, 16-bit I/O decoders, 20-bit below-1-MiB decoders, 64-bit BARs with fewer address lines -, any size-aligned address below '
+               '2^m, any slot where it fits, unimplemented = all bits hard-wired zero; the other five registers arbitrary) and EVERY command value c < 2^16: '
+               'the result is (kind, address, prefetchable, 2^k) (None for unimplemented), the function (command, status, all six BARs, every other register) '
+               'is exactly as before, every all-ones BAR write is issued with both decode bits clear, and replaying the trace no BAR differs from its original '
+               'content while decoding is enabled'),
               ('C12_bar_info_no_side_effects',
                'Proofs/PciBusProofs.v',
                'bar_info_no_side_effects',
@@ -32,6 +36,21 @@ SPEC_ENTRY = {'title': 'PCI bus helpers size BARs without side effects and addre
                'bars_correct',
                'repaired code: bars() on a function whose six registers are any sequence of well-formed BARs reports every BAR as it is (second register of a '
                '64-bit BAR absent), leaves the function unchanged and never writes a sizing pattern with decoding enabled'),
+              ('C12_bar_info_f11_prefix_refuted',
+               'Proofs/PciBusProofs.v',
+               'bar_info_f11_prefix_refuted',
+               "F11, code before the repair (two's complement of the whole mask): a well-formed I/O BAR with a 16-bit decoder, 0x100 bytes at 0xc000 (mask "
+               '0xffff00ff), is reported with size 0xffff0100 instead of 0x100; the code as it is now reports 0x100'),
+              ('C12_bar_info_f11_prefix_refuted_mem',
+               'Proofs/PciBusProofs.v',
+               'bar_info_f11_prefix_refuted_mem',
+               'F11 on memory BARs: a below-1-MiB BAR with 20 address bits and a 64-bit BAR with 40 address lines are mis-sized by the old computation and '
+               'right now'),
+              ('C12_bar_info_f11_prefix_partial',
+               'Proofs/PciBusProofs.v',
+               'bar_info_f11_prefix_partial',
+               'code after F5a/F5b but before F11, strongest true statement: the full conclusion of C12_bar_info for every well-formed BAR with a FULL decoder '
+               '(all address bits >= k writable)'),
               ('C12_bar_info_prefix_refuted_slot5',
                'Proofs/PciBusProofs.v',
                'bar_info_prefix_refuted_slot5',
@@ -44,14 +63,18 @@ SPEC_ENTRY = {'title': 'PCI bus helpers size BARs without side effects and addre
               ('C12_bar_info_prefix_partial',
                'Proofs/PciBusProofs.v',
                'bar_info_prefix_partial',
-               'code before the repair, what IS true for every well-formed BAR and every command: kind/address/prefetchable/size correct, BARs and status '
-               'restored, sizing never decoded; the command register ends as cmd_after_prefix c = (c if decoding was off, else c & 0x077F)'),
+               'code before all repairs, what IS true for every well-formed BAR with a full decoder (m = 32 / 64) and every command: '
+               'kind/address/prefetchable/size correct, BARs and status restored, sizing never decoded; the command register ends as cmd_after_prefix c = (c '
+               'if decoding was off, else c & 0x077F)'),
               ('C12_bar_info_prefix_partial_restores',
                'Proofs/PciBusProofs.v',
                'bar_info_prefix_partial_restores',
-               'code before the repair: the full conclusion under the extra hypotheses "command within the named flag bits or decoding already off" (and, via '
-               'placed, a 64-bit BAR starting below slot 5)'),
-              ('C12_bar_info_fixed_on_witnesses', 'Proofs/PciBusProofs.v', 'bar_info_fixed_on_witnesses', 'the repaired code on the two refutation witnesses'),
+               'code before all repairs: the full conclusion under the extra hypotheses "full decoder", "command within the named flag bits or decoding '
+               'already off" (and, via placed, a 64-bit BAR starting below slot 5)'),
+              ('C12_bar_info_fixed_on_witnesses',
+               'Proofs/PciBusProofs.v',
+               'bar_info_fixed_on_witnesses',
+               'the repaired code on the F5a / F5b refutation witnesses'),
               ('C12_reference_restore',
                'Proofs/PciBusProofs.v',
                'slot_write_restore',
@@ -96,11 +119,15 @@ SPEC_ENTRY = {'title': 'PCI bus helpers size BARs without side effects and addre
                'fuel 48 suffices for every well-formed list: the out-of-fuel case is unreachable')],
  'examples': ['Example C12_bar_info_nonvacuous :\n'
               '  let d := mkFn 65535 0 [dslot; dslot; mkSlot 4 ones32 12; mkSlot 5 3 8; dslot; dslot] [] in\n'
-              '  lenN (f_bars d) = 6 /\\ f_cmd d < 65536 /\\ spec_ok (SMem64 true 34 34359738368) /\\ placed d 2 (SMem64 true 34 34359738368)\n'
+              '  lenN (f_bars d) = 6 /\\ f_cmd d < 65536 /\\ spec_ok (SMem64 true 34 64 34359738368) /\\ placed d 2 (SMem64 true 34 64 34359738368)\n'
               '  /\\ fst (fst (bar_info Debug d 2)) = Ok (Some (BarMem 2 true 34359738368 17179869184)).\n'
               'Proof. cbv zeta. vm_compute. repeat split; try reflexivity; intros H; discriminate H. Qed.',
+              'Example C12_bar_info_io16_nonvacuous :\n'
+              '  lenN (f_bars wit_io16) = 6 /\\ f_cmd wit_io16 < 65536 /\\ spec_ok (SIo 8 16 49152) /\\ placed wit_io16 0 (SIo 8 16 49152)\n'
+              '  /\\ fst (fst (bar_info Debug wit_io16 0)) = Ok (Some (BarIO 49152 256)).\n'
+              'Proof. vm_compute. repeat split; try reflexivity; intros H; discriminate H. Qed.',
               'Example C12_bars_nonvacuous :\n'
-              '  let L := [SMem 0 true 12 4261412864; SIo 8 49152; SMem64 true 34 34359738368; SUnimpl; SMem 1 false 16 655360] in\n'
+              '  let L := [SMem 0 true 12 32 4261412864; SIo 8 16 49152; SMem64 true 34 48 34359738368; SUnimpl; SMem 1 false 16 20 655360] in\n'
               '  let d := mkFn 1031 16 (layout_slots L) [] in\n'
               '  lenN (f_bars d) = 6 /\\ Forall spec_ok L /\\ fst (fst (bars Debug d)) = Ok (layout_truth L) /\\ snd (fst (bars Debug d)) = d.\n'
               'Proof. cbv zeta. split; [reflexivity|]. split; [|vm_compute; split; reflexivity].\n'
